@@ -63,10 +63,11 @@ func c08Seeds(seed uint64, n int) []string {
 		// optimiser rewrites), invoked so that the arguments are evaluated
 		`$substringBefore(?, a.sep)("foo-bar")`, `$append(?, a[0])(1)`, `$append(?, a[])(1)`, `"x" ~> $substringAfter(?, seps[0])`, `$append(a.b[c=1], ?)(2)`, `$zip(?, a.b, c[])([1])`,
 		`$map([1], $append(?, a.b))`, `$sum(?)(a.b)`, `function($x){$x}(?)(a.b[0])`,
+		`a.1.c`, `a.1`, `a."s".b`, `x.true.y`, `a.null.b.c`, `a.b.2.c[0]`,
 		`1 "{{token}}"`, "1 `{{token}}`", `"{{hint}}" := 1`, "a.`{{hint}}` `{{token}}`", `$f("{{token}}" "{{hint}}")`, `1 "%s"`,
 		`a.b.(c+1)`, `$f(?, 1)(2)`, `"a" & 1 & true`, `a != b`, `a <= b and c >= d`, `%`, `a % 2`,
 	)
-	for i := 0; len(out) < n+52; i++ {
+	for i := 0; len(out) < n+58; i++ {
 		r := prng.New(seed, 0xC08, uint64(i))
 		g := gen.NewChaos(r, 3, false)
 		_, s := g.Program(jast.Style{Space: r.Intn(2)})
